@@ -3,7 +3,6 @@ package main
 import (
 	"fmt"
 	"go/ast"
-	"go/token"
 	"go/types"
 	"regexp"
 	"sort"
@@ -17,13 +16,13 @@ func init() {
 		ID:    "C20",
 		Title: "plugin installation follows the version rules; nothing is touched before every check passed",
 		Run:   runC20,
-		Explain: "(a) effect inventory: the calls of CLIManager.Install that can modify the plugin directory (module callees that transitively reach an os mutator and receive the manager or a SysPath-derived path) are enumerated; " +
+		Explain: "(a) effect inventory: the calls of CLIManager.Install — and of the helpers of Install that only delegate (no os mutator of their own, no loop, no closure) — that can modify the plugin directory (module callees that transitively reach an os mutator and receive the manager or a SysPath-derived path) are enumerated; every rule about an effect in a helper frame is decided along the chain of calls from Install to it; " +
 			"(b) gates: each of them is reachable only through non-empty source path, the certified name validation, NewCLIPlugin and GetMetadata success of the new plugin, all on the one name value that is also used for Get, Uninstall and SysPath; " +
 			"(c) decision table (abstract interpretation of Install, and of the helpers of Install that consume a scenario input — source resolution, existence check, version gate — whose outcomes are bound to their results in Install, over source kind x overwrite x existence x metadata error x comparison error x comparison result, 216 scenarios): an effect is reachable exactly when the source is usable and " +
 			"(overwrite, or no plugin exists, or the comparison succeeded with new > existing); the first effect is always the clean-up; after it the directory source reaches only CopyDirToDir and the file source only CopyToDir; " +
 			"(d) copies happen only after the clean-up returned nil or not-exist, into SysPath(name), from the source that was validated; success is returned only after a copy succeeded, with the new plugin's metadata; " +
 			"(e) version comparison: both versions pass the module's validity predicate, whose constant pattern classifies the semver.org corpus correctly, before x/mod Compare(\"v\"+new, \"v\"+existing); arguments in (new, existing) order; " +
-			"(f) discovery: every WalkDir callback of the install tree returns SkipDir for each directory other than the walk root (path compared with the root); candidates are regular files only; the (executable, name) pair returned is parsed from that very file; two executables are refused; " +
+			"(f) discovery: every WalkDir callback of the install tree returns SkipDir for each directory other than the walk root (path compared with the root); candidates are regular files only; the (executable, name) pair returned is parsed from that very file — held in two shared variables, or in the two fields of a record the callback built for that entry and nobody writes afterwards; two executables are refused; " +
 			"(g) binName and parsePluginName use the same constant prefix, so the copied executable is found under the parsed name.",
 		NotCov:  "file-system behaviour of the copy itself (a copy failing half-way after the clean-up), histories of operations, the metadata the installed plugin reports (it is the metadata of the executable that was run, C17).",
 		Trusted: []string{"go/types, go/ssa", "golang.org/x/mod/semver.Compare", "path/filepath.WalkDir", "os"},
@@ -56,6 +55,7 @@ type c20Effect struct {
 	call ssa.CallInstruction
 	kind string // cleanup | copy | other
 	name string
+	via  []*ssa.Call // the helper calls between Install and the function that holds the call (nil: Install itself)
 }
 
 func runC20(c *Ctx) {
@@ -67,40 +67,17 @@ func runC20(c *Ctx) {
 	}
 	c.SeenFn(INST.String())
 	fi := w.Info(INST)
-	recv := "param:" + INST.Params[0].Name()
-	// (a) effects
-	var effects []c20Effect
+	// (a) effects: the calls of Install — and of the helpers of Install that only delegate (c20Dispatch) — that can modify
+	// files; those that receive the manager or a SysPath-derived path are the effects on the plugin directory
+	effects, srcOnlyE := c20EnumEffects(w, INST)
 	var srcOnly []ssa.CallInstruction
-	for _, ci := range allCalls(INST) {
-		name := calleeName(ci)
-		var kinds map[string]bool
-		if k, ok := c20Mutators[name]; ok {
-			kinds = map[string]bool{k: true}
-		} else if g := staticCallee(ci); g != nil && w.IsProductFn(g) {
-			kinds = c20Reach(w, g)
+	for _, e := range srcOnlyE {
+		srcOnly = append(srcOnly, e.call)
+	}
+	for _, e := range effects {
+		for _, h := range e.via {
+			c.SeenFn(staticCallee(h).String())
 		}
-		if len(kinds) == 0 {
-			continue
-		}
-		touchesDir := false
-		for _, a := range ci.Common().Args {
-			d := desc(a)
-			if d == recv || strings.Contains(d, "SysFS.SysPath(") {
-				touchesDir = true
-			}
-		}
-		if !touchesDir {
-			srcOnly = append(srcOnly, ci)
-			continue
-		}
-		e := c20Effect{call: ci, name: name, kind: "other"}
-		switch {
-		case kinds["remove"]:
-			e.kind = "cleanup"
-		case kinds["write"]:
-			e.kind = "copy"
-		}
-		effects = append(effects, e)
 	}
 	nClean, nCopy := 0, 0
 	for _, e := range effects {
@@ -198,8 +175,21 @@ func runC20(c *Ctx) {
 			}
 		}
 	}
+	var unstable []string
+	stable := func(v ssa.Value) {
+		if bad, why := c20UnstableRead(w, INST, v); bad {
+			unstable = append(unstable, desc(v)+": "+why)
+		}
+	}
+	stable(nameV)
+	stable(newP.Call.Args[2])
 	for i, e := range effects {
+		// an effect in a helper frame: what holds before each call of the chain and before the effect in its own frame
+		// (c20GuardsVia); its arguments are read in Install's frame (a parameter of a helper is what the call passes)
 		g := fi.GuardsOf(e.call)
+		if len(e.via) > 0 {
+			g = c20GuardsVia(w, e.call, e.via)
+		}
 		c.Evals++
 		key := fmt.Sprintf("gates/%s#%d", e.kind, i+1)
 		_, g1 := hasLabel(g, "NE("+optsP+".", ",const:\"\")")
@@ -209,7 +199,8 @@ func runC20(c *Ctx) {
 		// the name the effect works on
 		nm := ""
 		for _, a := range e.call.Common().Args {
-			d := desc(a)
+			stable(a)
+			d := c20SubstVia(desc(a), e.via)
 			if d == X {
 				nm = X
 			}
@@ -221,7 +212,7 @@ func runC20(c *Ctx) {
 			// the name the new plugin reported is the validated name: GetMetadata succeeds only if they are equal
 			_, same := hasLabel(g, "EQ(alloc:pfw/plugin.GetMetadataResponse<", ">.Name,"+desc(newP)+"#0.name)")
 			for _, a := range e.call.Common().Args {
-				d := desc(a)
+				d := c20SubstVia(desc(a), e.via)
 				if same && (d == desc(newMD.(*ssa.Call))+"#0.Name" || (strings.Contains(d, "SysFS.SysPath(") && strings.Contains(d, "{"+desc(newMD.(*ssa.Call))+"#0.Name}"))) {
 					nm = X
 				}
@@ -229,6 +220,12 @@ func runC20(c *Ctx) {
 		}
 		c.Check(g1 && g2 && g3 && g4 && nm == X, key, "an effect on the plugin directory is reachable only after: non-empty source path, certified name validation, NewCLIPlugin success, GetMetadata success of the new plugin; it works on that same name", w.InstrPos(e.call),
 			fmt.Sprintf("%s: source-path=%v name-valid=%v new-plugin=%v new-metadata=%v same-name=%v", e.name, g1, g2, g3, g4, nm == X))
+	}
+	if getName != nil {
+		stable(getName)
+	}
+	if len(unstable) > 0 {
+		c.Bad("gates/same-object-same-name", "a name or path that is read from a field of a shared object is the same at every read: nothing below Install writes that field after the object was built", w.FnPos(INST), strings.Join(uniq(unstable), "; "))
 	}
 	c.Check(getName != nil && desc(getName) == X, "gates/existing-lookup-name", "the existing plugin is looked up under the name that is installed", w.InstrPos(getC), func() string {
 		if getName == nil {
@@ -368,20 +365,16 @@ func c20Table(c *Ctx, INST *ssa.Function, effects []c20Effect, optsP, boolField 
 		}
 		return AVal{}, false
 	}
-	stops := map[*ssa.BasicBlock]bool{}
-	kindOf := map[*ssa.BasicBlock]string{}
-	nameOf := map[*ssa.BasicBlock]string{}
+	// the effects, in Install and in the helper frames below it: the helpers on the way to an effect are interpreted like
+	// the helpers on the way to an anchor, and every abstract path reports the effects it passed, in order (runTraced)
+	fr.effectful = map[*ssa.Function]bool{}
 	for _, e := range effects {
-		stops[e.call.Block()] = true
-		kindOf[e.call.Block()] = e.kind
-		nameOf[e.call.Block()] = e.name
-	}
-	copyStops := map[*ssa.BasicBlock]bool{}
-	for _, e := range effects {
-		if e.kind != "cleanup" {
-			copyStops[e.call.Block()] = true
+		for _, h := range e.via {
+			fr.expand[h] = true
+			fr.effectful[staticCallee(h)] = true
 		}
 	}
+	fr.items = c20ItemsOf(effects, fr.expand)
 	var bad []string
 	nScen, nPaths, nAllowed := 0, 0, 0
 	reachedAllowed := 0
@@ -400,44 +393,39 @@ func c20Table(c *Ctx, INST *ssa.Function, effects []c20Effect, optsP, boolField 
 							hit := false
 							over := false
 							fr.base = hook
-							fr.choices(INST, 0, func(choice map[*ssa.Call]*c20Res) {
-								var ip *Interp
-								ip = &Interp{Fn: INST, IntTypes: map[string]bool{"*": true}}
-								ip.Hook = fr.hook(&ip, choice)
-								outs := ip.Run(INST.Blocks[0], nil, map[ssa.Value]AVal{}, stops, nil)
-								if ip.Overflow || fr.over {
-									over = true
+							cx := &c20Ctx{env0: map[ssa.Value]AVal{}}
+							var ip *Interp
+							ip = &Interp{Fn: INST, IntTypes: map[string]bool{"*": true}}
+							ip.Hook = fr.hook(&ip, cx)
+							fr.runTraced(ip, INST, cx, 0, func(_ Outcome, trace []c20Eff) {
+								nPaths++
+								if len(trace) == 0 {
 									return
 								}
-								for _, o := range outs {
-									nPaths++
-									if o.Stop == nil {
+								hit = true
+								if !allowed {
+									bad = append(bad, fmt.Sprintf("%+v reaches %s", cur, trace[0].name))
+									return
+								}
+								if trace[0].kind != "cleanup" {
+									bad = append(bad, fmt.Sprintf("%+v: first effect is %s (no clean-up before it)", cur, trace[0].name))
+									return
+								}
+								// from the clean-up onwards
+								for _, t := range trace[1:] {
+									if t.kind == "cleanup" {
 										continue
 									}
-									hit = true
-									if !allowed {
-										bad = append(bad, fmt.Sprintf("%+v reaches %s at %s", cur, nameOf[o.Stop], w.InstrPos(o.Stop.Instrs[0])))
-										continue
-									}
-									if kindOf[o.Stop] != "cleanup" {
-										bad = append(bad, fmt.Sprintf("%+v: first effect is %s (no clean-up before it)", cur, nameOf[o.Stop]))
-										continue
-									}
-									// phase 2: from the clean-up onwards
-									outs2 := ip.Run(o.Stop, o.From, o.Env, copyStops, nil)
-									for _, o2 := range outs2 {
-										nPaths++
-										if o2.Stop == nil {
-											continue
-										}
-										n := nameOf[o2.Stop]
-										fromDir := strings.Contains(n, "Dir") && strings.Count(n, "Dir") >= 2
-										if (src == "dir") != fromDir {
-											bad = append(bad, fmt.Sprintf("%+v: source kind %s reaches %s", cur, src, n))
-										}
+									n := t.name
+									fromDir := strings.Contains(n, "Dir") && strings.Count(n, "Dir") >= 2
+									if (src == "dir") != fromDir {
+										bad = append(bad, fmt.Sprintf("%+v: source kind %s reaches %s", cur, src, n))
 									}
 								}
 							})
+							if ip.Overflow || fr.over {
+								over = true
+							}
 							if over {
 								c.Unk("table/decision", "decision table of Install", w.FnPos(INST), "path budget exceeded")
 								return
@@ -474,39 +462,80 @@ func c20Order(c *Ctx, INST *ssa.Function, effects []c20Effect, newP, newMD *ssa.
 			clean = &effects[i]
 		}
 	}
-	cd := desc(clean.call.(*ssa.Call))
-	sel := func(l string, _ *ssa.If, _ bool) bool {
-		if l == "EQ("+cd+",nil)" || l == "EQ("+cd+"#err,nil)" {
-			return true
+	// "the clean-up returned nil or not-exist", as a selector of edges in the frame that holds the clean-up call
+	cleanSel := func(es []c20Effect) EdgeSel {
+		return func(l string, _ *ssa.If, _ bool) bool {
+			for _, e := range es {
+				cd := desc(e.call.(*ssa.Call))
+				if l == "EQ("+cd+",nil)" || l == "EQ("+cd+"#err,nil)" {
+					return true
+				}
+				if strings.HasPrefix(l, "T(call:errors.Is("+cd) && (strings.HasSuffix(l, ",global:os.ErrNotExist))") || strings.HasSuffix(l, ",global:io/fs.ErrNotExist))")) {
+					return true
+				}
+			}
+			return false
 		}
-		return strings.HasPrefix(l, "T(call:errors.Is("+cd) && (strings.HasSuffix(l, ",global:os.ErrNotExist))") || strings.HasSuffix(l, ",global:io/fs.ErrNotExist))"))
 	}
-	cut := fi.edgesMatching(sel)
-	var copyErr []string
+	var copies []c20Effect
 	for i, e := range effects {
 		if e.kind != "copy" {
 			continue
 		}
+		copies = append(copies, e)
 		cc := e.call.(*ssa.Call)
-		dom := clean.call.Block().Dominates(cc.Block())
+		// Decided in the innermost frame F that holds both the clean-up and the copy (Install itself when both are calls of
+		// Install). In F the clean-up is its call, or the call of the helper that holds it; that helper call counts as
+		// "clean-up succeeded" on its nil-error edge only if the helper answers nil only behind a success edge of the
+		// clean-up in its own frame (c20DeepSel). The copy is its call, or the call of the helper on the way to it: the
+		// copy runs only if that call runs. So: no path of F reaches the copy's site without passing a success edge of
+		// the clean-up, and the clean-up's site dominates it.
+		F, level, sa, sb := c20CommonFrame(INST, *clean, e)
+		fF := w.Info(F)
+		sel := c20DeepSel(w, level, []c20Effect{*clean}, cleanSel)
+		cut := fF.edgesMatching(sel)
+		dom := c20Dominates(sa, sb)
 		c.Evals++
-		blocked := !fi.reachHit(entryState(), cut, blocksOf(cc))
-		dst := desc(cc.Call.Args[len(cc.Call.Args)-1])
+		blocked := !fF.reachHit(entryState(), cut, blocksOf(sb)) && sb.Block().Index != 0
+		minCut := 2
+		if sa != ssa.Instruction(clean.call) {
+			minCut = 1 // the nil-error edge of the helper; the two edges (nil, not-exist) are required inside the helper
+			_, n, _ := exitsBlocked(w.Info(clean.call.Parent()), Mode{Kind: mErr}, cleanSel([]c20Effect{*clean}), nil)
+			if n < 2 {
+				minCut = 1 << 30
+			}
+		}
+		// destination and source, read in Install's frame; a field of a result object that a constructor fills with one of
+		// its parameters is that argument (c20Origin)
+		dv, dvia := c20Origin(cc.Call.Args[len(cc.Call.Args)-1], e.via)
+		dst := c20SubstVia(desc(dv), dvia)
 		dstOK := strings.HasPrefix(dst, "call:invoke:ngo/dir.SysFS.SysPath(") && strings.HasSuffix(dst, "#0")
 		g := fi.GuardsOf(cc)
+		if len(e.via) > 0 {
+			g = c20GuardsVia(w, cc, e.via)
+		}
 		_, sysOK := hasLabel(g, "EQ("+strings.TrimSuffix(dst, "#0")+"#err,nil)")
-		src := desc(cc.Call.Args[0])
+		sv, svia := c20Origin(cc.Call.Args[0], e.via)
+		src := c20SubstVia(desc(sv), svia)
 		srcOK := src == optsP+".PluginPath" || src == desc(newP.Call.Args[2]) || strings.HasPrefix(src, optsP+".")
-		if src == desc(newP.Call.Args[2]) {
+		if src2 := c20SubstVia(desc(cc.Call.Args[0]), e.via); src2 == desc(newP.Call.Args[2]) {
 			srcOK = true
 		}
-		c.Check(dom && blocked && len(cut) >= 2 && dstOK && sysOK && srcOK, fmt.Sprintf("order/copy-after-cleanup#%d", i+1),
+		c.Check(dom && blocked && len(cut) >= minCut && dstOK && sysOK && srcOK, fmt.Sprintf("order/copy-after-cleanup#%d", i+1),
 			"a copy into the plugin directory happens only after the clean-up of that plugin returned nil or not-exist, into SysPath(name) (error checked), from the source that was validated", w.InstrPos(cc),
 			fmt.Sprintf("%s: clean-up dominates=%v blocked without clean-up success=%v destination ok=%v syspath error checked=%v source ok=%v (source %s)", e.name, dom, blocked, dstOK, sysOK, srcOK, trunc(src, 100)))
-		copyErr = append(copyErr, "EQ("+desc(cc)+",nil)", "EQ("+desc(cc)+"#err,nil)")
 	}
 	m := Mode{Kind: mErr}
-	blocked, n, wit := exitsBlocked(fi, m, anyOf(copyErr...), nil)
+	// a copy succeeded: the nil-error edge of a copy call of Install, or of a helper call on the way to copies that answers
+	// nil only after one of its copies succeeded (c20DeepSel)
+	copySel := c20DeepSel(w, 0, copies, func(es []c20Effect) EdgeSel {
+		var calls []*ssa.Call
+		for _, e := range es {
+			calls = append(calls, e.call.(*ssa.Call))
+		}
+		return c20ErrNilSel(calls)
+	})
+	blocked, n, wit := exitsBlocked(fi, m, copySel, nil)
 	c.slot(blocked, n, "order/success-only-after-copy", "Install returns nil error only after a copy into the plugin directory succeeded", w.FnPos(INST), "success without a successful copy", wit...)
 	s := w.Summarize(INST, m)
 	c.Evals += s.States
@@ -807,10 +836,11 @@ func c20CandidatesW(c *Ctx, k *c20Walk) {
 		}
 	}
 	c.Check(okReg, "discovery/regular-files-only", "the callback records candidates only for entries whose own Info says regular file", w.FnPos(cl), "")
-	// the exits of the parser: "found" exits return what the walk left in two cells; every other one is a fallback
+	// the exits of the parser: "found" exits return what the walk left — in two cells, or in the two fields of the record
+	// one cell points to (c20Read); every other one is a fallback
 	s := w.Summarize(P, Mode{Kind: mErr})
 	c.Evals += s.States
-	type pair struct{ f, n int }
+	type pair struct{ fc, ff, nc, nf int } // (cell, field) of the file and of the name; field -1: the cell's content
 	found := map[pair]bool{}
 	var fallbacks []*ExitSum
 	var odd []string
@@ -818,12 +848,11 @@ func c20CandidatesW(c *Ctx, k *c20Walk) {
 		if len(e.Ret.Results) < 3 {
 			continue
 		}
-		fc, _, fok := k.value(e.Ret.Results[0], false)
-		nc, _, nok := k.value(e.Ret.Results[1], false)
+		fr, nr := k.readOf(e.Ret.Results[0], e.Ret), k.readOf(e.Ret.Results[1], e.Ret)
 		switch {
-		case fok && nok && fc >= 0 && nc >= 0:
-			found[pair{fc, nc}] = true
-		case fok && fc < 0:
+		case fr.ok && nr.ok && fr.cell >= 0 && nr.cell >= 0 && !fr.elem && !nr.elem && ((fr.field < 0 && nr.field < 0) || (fr.field >= 0 && nr.field >= 0 && fr.cell == nr.cell)):
+			found[pair{fr.cell, fr.field, nr.cell, nr.field}] = true
+		case fr.ok && (fr.cell < 0 || fr.elem):
 			fallbacks = append(fallbacks, e)
 		default:
 			odd = append(odd, w.InstrPos(e.Ret))
@@ -832,9 +861,63 @@ func c20CandidatesW(c *Ctx, k *c20Walk) {
 	parsedName := "call:invoke:io/fs.DirEntry.Name(" + d + ")"
 	parsed := PN + "(" + parsedName + ")"
 	parsed0 := callForm(parser, 0, parsedName)
+	// what the callback leaves in (cell, field): the value it stores into the cell, or the value it put into that field of
+	// the record it stores (a pointer to) — a record it built in this very invocation (c20RecordOf)
+	leaves := func(cell, field int) (sts []*ssa.Store, vals []ssa.Value) {
+		for _, cp := range caps {
+			if cp.cell != cell {
+				continue
+			}
+			v := cp.st.Val
+			if field >= 0 {
+				_, rv, ok := c20RecordOf(v)
+				if v = nil; ok {
+					v = rv[field]
+				}
+			}
+			sts, vals = append(sts, cp.st), append(vals, v)
+		}
+		return sts, vals
+	}
+	// the name parsed from this entry's name, directly or through a cell assigned in this invocation on every path to the store
+	isParsedName := func(nv ssa.Value) bool {
+		if nv == nil {
+			return false
+		}
+		if _, x, ok := k.value(nv, true); ok && x != nil {
+			nv = x
+		}
+		return parser != nil && desc(nv) == parsed0
+	}
+	// the record types involved are written by nobody once a record is built
+	quiet := func(T types.Type) (bool, string) {
+		st, _ := c20StructOf(T)
+		if st == nil {
+			return true, ""
+		}
+		if pt, isPtr := T.Underlying().(*types.Pointer); isPtr {
+			T = pt.Elem()
+		}
+		fns := append([]*ssa.Function{cl}, c20Tree(w, P)...)
+		return c20RecordsQuiet(w, fns, T)
+	}
+	cellType := func(cell int) types.Type {
+		var t types.Type
+		if k.recv != nil {
+			if f := fieldOf(k.recv.Type(), cell); f != nil {
+				t = f.Type()
+			}
+		} else if pt, ok := k.cb.FreeVars[cell].Type().Underlying().(*types.Pointer); ok {
+			t = pt.Elem()
+		}
+		return t
+	}
 	rule := "the (executable, name) pair recorded for an executable entry is that entry's path and the name parsed from that entry's own file name in the same callback invocation; a second executable is refused"
-	// the bool cells that mark "an executable was recorded": set to true together with the pair, and tested false before
+	// the cells that mark "an executable was recorded": a bool set to true together with the pair and tested false before;
+	// or the cell holding the pointer to the executable's record itself — nil when the walk starts, tested nil before the
+	// store, and the store puts the address of an object there (never nil)
 	marks := map[int]bool{}
+	ptrMarks := map[int]bool{}
 	switch {
 	case len(odd) > 0:
 		c.Bad("discovery/pair-from-same-entry", rule, odd[0], "the values returned on this exit are not decided by one definition (a cell the walk filled in, or one assignment)")
@@ -847,29 +930,28 @@ func c20CandidatesW(c *Ctx, k *c20Walk) {
 		for q := range found {
 			pr = q
 		}
-		var stsF, stsN []*ssa.Store
-		for _, cp := range caps {
-			if cp.cell == pr.f {
-				stsF = append(stsF, cp.st)
-			}
-			if cp.cell == pr.n {
-				stsN = append(stsN, cp.st)
-			}
-		}
+		stsF, valsF := leaves(pr.fc, pr.ff)
+		stsN, valsN := leaves(pr.nc, pr.nf)
 		okFile, okName, gates, second := len(stsF) > 0 && len(stsN) > 0, true, true, true
 		site := w.FnPos(cl)
-		for _, stF := range stsF {
+		why := ""
+		if pr.ff >= 0 {
+			if ok, w2 := quiet(cellType(pr.fc)); !ok {
+				okFile, why = false, "; "+w2
+			}
+		}
+		for i, stF := range stsF {
 			partner := false
 			for _, stN := range stsN {
 				if stN.Block() == stF.Block() {
 					partner = true
 				}
 			}
-			if !partner || stF.Val != ssa.Value(k.pathParam()) {
+			if !partner || valsF[i] != ssa.Value(k.pathParam()) {
 				okFile = false
 			}
 		}
-		for _, stN := range stsN {
+		for i, stN := range stsN {
 			site = w.InstrPos(stN)
 			partner := false
 			for _, stF := range stsF {
@@ -880,12 +962,7 @@ func c20CandidatesW(c *Ctx, k *c20Walk) {
 			if !partner {
 				okFile = false
 			}
-			// the name: parsed from this entry's name, directly or through a cell assigned in this invocation on every path to the store
-			nv := stN.Val
-			if _, x, ok := k.value(nv, true); ok && x != nil {
-				nv = x
-			}
-			if parser == nil || desc(nv) != parsed0 {
+			if !isParsedName(valsN[i]) {
 				okName = false
 			}
 			g := fi.GuardsOf(stN)
@@ -903,11 +980,25 @@ func c20CandidatesW(c *Ctx, k *c20Walk) {
 					has = true
 				}
 			}
+			if pr.nf >= 0 && !has {
+				// the pointer cell as its own mark
+				_, isObj := stN.Val.(*ssa.Alloc)
+				defs := k.defsBefore(k.call, pr.nc, false)
+				startsNil := len(defs) == 1 && !defs[0].walk
+				if startsNil && !defs[0].entry {
+					v, zero, ok := k.defValue(defs[0], pr.nc)
+					startsNil = ok && (zero || (v != nil && isNilConst(v)))
+				}
+				if isObj && startsNil && (labelHas(g, "EQ("+k.innerDesc(pr.nc)+",nil)") || labelHas(g, "EQ(nil,"+k.innerDesc(pr.nc)+")")) {
+					ptrMarks[pr.nc] = true
+					has = true
+				}
+			}
 			if !has {
 				second = false
 			}
 		}
-		c.Check(okFile && okName && gates && second, "discovery/pair-from-same-entry", rule, site, fmt.Sprintf("path is the entry=%v name parsed from the entry=%v gates(parse ok, executable)=%v second-executable refused=%v", okFile, okName, gates, second))
+		c.Check(okFile && okName && gates && second, "discovery/pair-from-same-entry", rule, site, fmt.Sprintf("path is the entry=%v name parsed from the entry=%v gates(parse ok, executable)=%v second-executable refused=%v%s", okFile, okName, gates, second, why))
 	}
 	// the fallback: single non-executable candidate
 	rule = "the fallback (no executable found) is taken only with exactly one well-named regular file; it returns that file and the name parsed from that file's own base name, after setting its executable bit succeeded"
@@ -917,42 +1008,87 @@ func c20CandidatesW(c *Ctx, k *c20Walk) {
 	for _, fallback := range fallbacks {
 		r0 := fallback.Ret.Results[0]
 		r1 := fallback.Ret.Results[1]
-		if _, x, ok := k.value(r1, false); ok && x != nil {
+		fr := k.readOf(r0, fallback.Ret)
+		nr := k.readOf(r1, fallback.Ret)
+		if _, x, ok := k.value(r1, false); ok && x != nil && nr.cell < 0 {
 			r1 = x // a variable the parser assigned and nothing could change since
 		}
 		f, n := desc(r0), desc(r1)
-		// the list: the returned file is element 0 of what the walk left in a shared cell
+		// the list: the returned file is element 0 — or a field of the record that is element 0 — of what the walk left in
+		// a shared cell
 		L := -1
-		if u, ok := r0.(*ssa.UnOp); ok && u.Op == token.MUL {
-			if ia, ok := u.X.(*ssa.IndexAddr); ok {
-				if cell, _, ok := k.value(ia.X, false); ok && cell >= 0 {
-					L = cell
-				}
-			}
+		if fr.ok && fr.elem {
+			L = fr.cell
 		}
-		okN := parser != nil && n == callForm(parser, 0, "call:path/filepath.Base("+f+")")
-		okL, okSrc := false, false
+		okN, okL, okSrc, parsedAtAppend := false, false, false, false
 		if L >= 0 && conf {
 			lst := k.outerDesc(L)
-			okL = f == lst+"[const:0]" && labelHas(fallback.Checked, "EQ(len("+lst+"),const:1)") && k.seesOnlyWalk(L)
-			// the list holds the callback's well-named regular entries
-			n := 0
+			okL = desc(fr.list) == lst && labelHas(fallback.Checked, "EQ(len("+lst+"),const:1)") && k.seesOnlyWalk(L)
+			// the list holds the callback's well-named regular entries: every store to it appends this invocation's path —
+			// or this invocation's record (path, name parsed from this entry's name) — behind a successful parse of the name
+			cnt := 0
 			okSrc = true
 			for _, cp := range caps {
 				if cp.cell != L {
 					continue
 				}
-				n++
-				if !strings.HasPrefix(desc(cp.st.Val), "call:builtin:append("+k.innerDesc(L)+",{"+p+"})") || !labelHas(fi.GuardsOf(cp.st), "EQ("+parsed+"#err,nil)") {
+				cnt++
+				lv, ev, isApp := c20AppendOne(cp.st.Val)
+				if !isApp || desc(lv) != k.innerDesc(L) || !labelHas(fi.GuardsOf(cp.st), "EQ("+parsed+"#err,nil)") {
+					okSrc = false
+					continue
+				}
+				if c2, _, isLoad := k.loadOf(lv, true); !isLoad || c2 != L {
+					okSrc = false
+				}
+				if fr.field < 0 {
+					if ev != ssa.Value(k.pathParam()) {
+						okSrc = false
+					}
+					continue
+				}
+				_, rv, isRec := c20RecordOf(ev)
+				if !isRec || rv[fr.field] != ssa.Value(k.pathParam()) {
+					okSrc = false
+					continue
+				}
+				if nr.ok && nr.elem && nr.cell == L && nr.field >= 0 && isParsedName(rv[nr.field]) {
+					parsedAtAppend = true
+				} else if nr.elem {
 					okSrc = false
 				}
 			}
-			okSrc = okSrc && n > 0
+			okSrc = okSrc && cnt > 0
+			if fr.field >= 0 {
+				T := cellType(L)
+				if sl, isSlice := T.Underlying().(*types.Slice); isSlice {
+					T = sl.Elem()
+				}
+				if ok, _ := quiet(T); !ok {
+					okSrc = false
+				}
+			}
 		}
-		okE := labelHas(fallback.Checked, "EQ("+PN+"(call:path/filepath.Base("+f+"))#err,nil)") && labelHas(fallback.Checked, "EQ("+SETX+"("+f+")#err,nil)")
+		// the name: parsed again from the base name of the returned file (and that parse checked), or the name field of the
+		// same list element, which the callback parsed from the entry's own name before it appended the record
+		okParse := false
+		switch {
+		case nr.ok && nr.elem:
+			okN = parsedAtAppend && okSrc
+			okParse = okN
+		default:
+			okN = parser != nil && n == callForm(parser, 0, "call:path/filepath.Base("+f+")")
+			okParse = labelHas(fallback.Checked, "EQ("+PN+"(call:path/filepath.Base("+f+"))#err,nil)")
+		}
+		okE := okParse && labelHas(fallback.Checked, "EQ("+SETX+"("+f+")#err,nil)")
 		okF := false
 		for _, b := range c20SortedInts(marks) {
 			if labelHas(fallback.Checked, "F("+k.outerDesc(b)+")") && k.seesOnlyWalk(b) {
+				okF = true
+			}
+		}
+		for _, b := range c20SortedInts(ptrMarks) {
+			if (labelHas(fallback.Checked, "EQ("+k.outerDesc(b)+",nil)") || labelHas(fallback.Checked, "EQ(nil,"+k.outerDesc(b)+")")) && k.seesOnlyWalk(b) {
 				okF = true
 			}
 		}
